@@ -1,6 +1,8 @@
 import SynKitProofs.ReactorInvLemmas
 import SynKitProofs.Props.C05
 import SynKitProofs.ReactorLink
+import SynKitProofs.ReactorITSLink
+import SynKitProofs.Props.C03
 /-!
 # C04 — applying a reaction's own template regenerates it, forwards and backwards
 
@@ -29,7 +31,11 @@ map numbers forgotten, i.e. `G.relabel f` for some injective `f` (any SMILES rew
 Steps 1 and 2 are proved here for all inputs; step 3 is a named hypothesis because the glue step
 is modelled by C03.  Hence `own_template_regenerates_partial`.  The last section of this file
 discharges step 3 for the concrete glue model under `RcComplete`
-(`C04.glueRebuilds_concrete_partial`, `C04.own_template_regenerates_concrete_partial`).  `SubPattern` is decidable and is
+(`C04.glueRebuilds_concrete_partial`, `C04.own_template_regenerates_concrete_partial`), and the section
+after it discharges `OwnTemplate` / `RcComplete` for the graphs of the ITS family (`ITS.construct`,
+`ITS.getRc`) from hypotheses on the two molecule graphs only, adds the backward direction (`invert`),
+the component-aware and fallback strategies, and a version without the restriction on aromatic flags /
+`neighbors` entries (`ItsCoreEquiv`).  `SubPattern` is decidable and is
 evaluated by the driver (`rinv.subpattern`, `rinv.id_in_monos`) on the graphs the implementation
 really builds, see `harness/props/c04.py`.
 -/
@@ -406,5 +412,464 @@ example :
   refine ⟨by unfold RcComplete; decide, by decide⟩
 
 end Concrete
+
+/-! ## The reaction's own ITS and reaction centre as templates (link to the C01/C02 models), the
+backward direction, the other strategies
+
+`ReactorLink.OwnTemplate G I T` is discharged for the graphs the ITS family builds: for a balanced
+pair `(G, H)` of molecule graphs on a shared atom set (`ReactorLink.RxnPair`, hypotheses on `G` and `H`
+only), the reaction is `I := ITS.construct o G H` and the template is `T := I` (full ITS) or
+`T := ITS.getRc {} I` (centre).  `RcComplete` is vacuous for the full ITS and follows from
+`ReactorLink.CentreCovers G H` for the centre.  Backwards, the substrate is `H`, the glued template
+`invert T` (`_invert_template`), the reaction `ITS.construct o H G`.  (Helper lemmas:
+`SynKitProofs/ReactorITSLink.lean`.) -/
+section ITSLink
+open SynKit.Reactor SynKit.ReactorLink
+
+variable {G H : LGraph}
+
+/-! ### (ii) `OwnTemplate` for the ITS family -/
+
+/-- **The full ITS of a balanced pair is a template of its own reaction.** -/
+theorem C04.ownTemplate_full_its (o : ITS.Opts) (hp : RxnPair G H) :
+    OwnTemplate G (ITS.construct o G H) (ITS.construct o G H) :=
+  ownTemplate_of_sub _ _ _ (reactionOf_construct o hp.toRxnPairW) (strongLab_construct o hp)
+    (subITS_self _ (wfTemplate_construct o hp.toRxnPairW))
+
+/-- **The reaction centre (`get_rc`) of the full ITS of a balanced pair is a template of that
+reaction** (`ignore_aromaticity=False`, so that a changed bond is one whose two orders differ). -/
+theorem C04.ownTemplate_centre (o : ITS.Opts) (ho : o.ignoreArom = false) (hp : RxnPair G H) :
+    OwnTemplate G (ITS.construct o G H) (ITS.getRc {} (ITS.construct o G H)) :=
+  ownTemplate_of_sub _ _ _ (reactionOf_construct o hp.toRxnPairW) (strongLab_construct o hp)
+    (subITS_getRc _ (wfits_construct o ho hp.toRxnPairW) (wfTemplate_construct o hp.toRxnPairW))
+
+/-- **`RcComplete` holds trivially for the full ITS** (no atom lies outside the template). -/
+theorem C04.rcComplete_full_its (I : LGraph) : RcComplete I I := rcComplete_self I
+
+/-- **`RcComplete` for the centre template**, from the condition on `(G, H)` that every atom all of
+whose bonds keep their order keeps its hydrogen count and charge (`CentreCovers`; false for F10 inputs). -/
+theorem C04.rcComplete_centre (o : ITS.Opts) (ho : o.ignoreArom = false) (hp : RxnPair G H) (hc : CentreCovers G H) :
+    RcComplete (ITS.construct o G H) (ITS.getRc {} (ITS.construct o G H)) :=
+  rcComplete_getRc o ho hp.toRxnPairW hc
+
+/-- From `OwnTemplate` to a match of the exhaustive enumeration that glues to the reaction. -/
+theorem C04.exists_match_of_ownTemplate (G I T : LGraph) (h : OwnTemplate G I T) (hrc : RcComplete I T) :
+    ∃ m ∈ allMonos monoSel G (left T), ItsEquiv (glue G T m) I := by
+  have A := assign_of_mono G T (idMap T) h.hT h.hid
+  exact ⟨idMap T, (mem_allMonos monoSel G (left T) (left_wf T h.hT) _).2 h.hid,
+    Or.inr ⟨glue_wf G T _ h.hG.1 h.hT.1 A.inj A.img, h.hI, _, glue_own_template_partial G I T h hrc⟩⟩
+
+/-- **C04, full ITS, graph level (hypotheses on `(G, H)` only).** For a balanced pair `(G, H)`, the
+exhaustive search finds a match of the full ITS `construct G H` in the reactant graph `G` along which
+`_glue_graph` rebuilds `construct G H`, up to isomorphism of ITS graphs.  `RxnPair` contains gap (i)
+(no atom changes its aromatic flag or `neighbors` entry); `C04.own_template_regenerates_full_its_core`
+below removes it at the price of comparing product-side labels on element, hydrogen count and charge only. -/
+theorem C04.own_template_regenerates_full_its (o : ITS.Opts) (hp : RxnPair G H) :
+    ∃ m ∈ allMonos monoSel G (left (ITS.construct o G H)),
+      ItsEquiv (glue G (ITS.construct o G H) m) (ITS.construct o G H) :=
+  C04.exists_match_of_ownTemplate _ _ _ (C04.ownTemplate_full_its o hp) (C04.rcComplete_full_its _)
+
+/-- **C04, centre template, graph level (hypotheses on `(G, H)` only).** -/
+theorem C04.own_template_regenerates_centre (o : ITS.Opts) (ho : o.ignoreArom = false) (hp : RxnPair G H)
+    (hc : CentreCovers G H) :
+    ∃ m ∈ allMonos monoSel G (left (ITS.getRc {} (ITS.construct o G H))),
+      ItsEquiv (glue G (ITS.getRc {} (ITS.construct o G H)) m) (ITS.construct o G H) :=
+  C04.exists_match_of_ownTemplate _ _ _ (C04.ownTemplate_centre o ho hp) (C04.rcComplete_centre o ho hp hc)
+
+/-! ### (iii) every strategy, both directions -/
+
+/-- Backward application is forward application of the inverted template (`orient`), stage by stage. -/
+theorem concrete_results_backward (maxGroup : Nat) (comp : LGraph → LGraph → List Mapping) (s : Strategy)
+    (host T : LGraph) :
+    (concrete maxGroup comp).results s true host T = (concrete maxGroup comp).results s false host (invert T) := rfl
+
+/-- **C04, concrete, any strategy (`_partial` only through `OwnTemplate`).** If the search of strategy
+`s` returns the identity match on the un-renumbered substrate, the reaction is among the results on
+every renumbering of the substrate: the searches are equivariant (C05/C06), pruning keeps an equivalent
+match, the glue step rebuilds the reaction. -/
+theorem C04.own_template_regenerates_concrete_strategy (maxGroup : Nat) (comp : LGraph → LGraph → List Mapping)
+    (hcompSub : ∀ H P m, m ∈ comp H P → m ∈ allMonos monoSel H P) (hcompEq : SearchEquivariant comp)
+    (s : Strategy) (G I T : LGraph) (f : Nat → Nat) (hf : Function.Injective f)
+    (h : OwnTemplate G I T) (hrc : RcComplete I T)
+    (hs : idMap T ∈ (concrete maxGroup comp).search s G ((concrete maxGroup comp).pattern false T)) :
+    ∃ r ∈ (concrete maxGroup comp).results s false (G.relabel f) T, ItsEquiv r I := by
+  have hE := itsEquiv_equivalence
+  have hseq := concrete_searchEquivariant maxGroup comp hcompEq s
+  have hraw : relabelHost f (idMap T) ∈
+      (concrete maxGroup comp).search s (G.relabel f) ((concrete maxGroup comp).pattern false T) := by
+    have := (hseq G ((concrete maxGroup comp).pattern false T) f id hf Function.injective_id
+      (relabelHost f (relabelPat id (idMap T)))).2 ⟨idMap T, hs, rfl⟩
+    rwa [relabel_id, relabelPat_id] at this
+  obtain ⟨r, hr, hrt⟩ := C04.glueRebuilds_concrete_partial maxGroup comp G I T f hf h hrc
+  rw [idMap_concrete_pattern maxGroup comp T h.hT] at hr
+  have hru : r ∈ (concrete maxGroup comp).resultsUnpruned s false (G.relabel f) T :=
+    List.mem_flatMap.2 ⟨_, hraw, hr⟩
+  have hp := C05.prune_preserves_results_concrete maxGroup comp false (G.relabel f) T
+    ((concrete maxGroup comp).search s (G.relabel f) ((concrete maxGroup comp).pattern false T))
+    (fun m hm hH hT' => concrete_search_mono maxGroup comp hcompSub s false _ T m hm hH hT')
+  obtain ⟨r', hr', e⟩ := hp.2 r hru
+  exact ⟨r', hr', hE.trans (hE.symm e) hrt⟩
+
+/-- The identity match is returned by the exhaustive strategy. -/
+theorem C04.id_mem_search_all (maxGroup : Nat) (comp : LGraph → LGraph → List Mapping) (G I T : LGraph)
+    (h : OwnTemplate G I T) :
+    idMap T ∈ (concrete maxGroup comp).search .all G ((concrete maxGroup comp).pattern false T) := by
+  rw [concrete_search_all]
+  exact (mem_allMonos monoSel G (left T) (left_wf T h.hT) _).2 h.hid
+
+/-- **Backward `OwnTemplate`.** For a template `T` cut out of the full ITS of `(G, H)` (the full ITS
+itself, its centre), the inverted template `_invert_template T` is a template of the reversed reaction
+`construct o H G` of the product graph `H`.  (`C03.invert_swaps_sides`: its prepared pattern is the
+product side of `T`.) -/
+theorem C04.ownTemplate_backward (o : ITS.Opts) (hp : RxnPair G H) (T : LGraph)
+    (hS : SubITS T (ITS.construct o G H)) : OwnTemplate H (ITS.construct o H G) (invert T) :=
+  ownTemplate_of_sub _ _ _ (reactionOf_construct o hp.symm.toRxnPairW) (strongLab_construct o hp.symm)
+    (subITS_invert o hp.toRxnPairW T hS)
+
+/-- The prepared pattern of the backward application is the product side of the template, and
+inverting twice gives back the forward pattern (C03). -/
+theorem C04.backward_pattern (T : LGraph) (hT : NumericOrders T) :
+    left (invert T) = right T ∧ left (invert (invert T)) = left T :=
+  ⟨(invert_swaps_sides T hT).1, (invert_involutive T hT).1⟩
+
+/-- **C04, both directions, exhaustive strategy, for a template cut out of the full ITS.** Forwards the
+reaction `construct o G H` is among the results of applying `T` to the renumbered reactants; backwards
+the reversed reaction `construct o H G` is among the results of applying `T` backwards to the
+renumbered products. -/
+theorem C04.own_template_regenerates_both_directions (maxGroup : Nat) (comp : LGraph → LGraph → List Mapping)
+    (o : ITS.Opts) (hp : RxnPair G H) (T : LGraph) (hS : SubITS T (ITS.construct o G H))
+    (hrc : RcComplete (ITS.construct o G H) T)
+    (f g : Nat → Nat) (hf : Function.Injective f) (hg : Function.Injective g) :
+    (∃ r ∈ (concrete maxGroup comp).results .all false (G.relabel f) T, ItsEquiv r (ITS.construct o G H)) ∧
+    (∃ r ∈ (concrete maxGroup comp).results .all true (H.relabel g) T, ItsEquiv r (ITS.construct o H G)) := by
+  constructor
+  · exact C04.own_template_regenerates_concrete_partial maxGroup comp G _ T f hf
+      (ownTemplate_of_sub _ _ _ (reactionOf_construct o hp.toRxnPairW) (strongLab_construct o hp) hS) hrc
+  · rw [concrete_results_backward]
+    exact C04.own_template_regenerates_concrete_partial maxGroup comp H _ (invert T) g hg
+      (C04.ownTemplate_backward o hp T hS) (rcComplete_invert o hp.toRxnPairW T hS.hT hrc)
+
+/-- **C04 for the full ITS template, both directions, exhaustive strategy — hypotheses on `(G, H)` only.** -/
+theorem C04.own_template_regenerates_full_its_results (maxGroup : Nat) (comp : LGraph → LGraph → List Mapping)
+    (o : ITS.Opts) (hp : RxnPair G H) (f g : Nat → Nat) (hf : Function.Injective f) (hg : Function.Injective g) :
+    (∃ r ∈ (concrete maxGroup comp).results .all false (G.relabel f) (ITS.construct o G H),
+        ItsEquiv r (ITS.construct o G H)) ∧
+    (∃ r ∈ (concrete maxGroup comp).results .all true (H.relabel g) (ITS.construct o G H),
+        ItsEquiv r (ITS.construct o H G)) :=
+  C04.own_template_regenerates_both_directions maxGroup comp o hp _
+    (subITS_self _ (wfTemplate_construct o hp.toRxnPairW)) (rcComplete_self _) f g hf hg
+
+/-- **C04 for the centre template, both directions, exhaustive strategy — hypotheses on `(G, H)` only**
+(`CentreCovers`: every atom all of whose bonds keep their order keeps hydrogen count and charge). -/
+theorem C04.own_template_regenerates_centre_results (maxGroup : Nat) (comp : LGraph → LGraph → List Mapping)
+    (o : ITS.Opts) (ho : o.ignoreArom = false) (hp : RxnPair G H) (hc : CentreCovers G H)
+    (f g : Nat → Nat) (hf : Function.Injective f) (hg : Function.Injective g) :
+    (∃ r ∈ (concrete maxGroup comp).results .all false (G.relabel f) (ITS.getRc {} (ITS.construct o G H)),
+        ItsEquiv r (ITS.construct o G H)) ∧
+    (∃ r ∈ (concrete maxGroup comp).results .all true (H.relabel g) (ITS.getRc {} (ITS.construct o G H)),
+        ItsEquiv r (ITS.construct o H G)) :=
+  C04.own_template_regenerates_both_directions maxGroup comp o hp _
+    (subITS_getRc _ (wfits_construct o ho hp.toRxnPairW) (wfTemplate_construct o hp.toRxnPairW))
+    (rcComplete_getRc o ho hp.toRxnPairW hc) f g hf hg
+
+/-! ### the component-aware and the fallback strategy -/
+
+/-- **When the component-aware strategy returns the identity match** (`findComp` of the C06 model as
+the reactor calls it, any `strict_cc_count` / threshold): the identity sends different components of the
+prepared pattern into different components of the substrate (`DistinctComponents` — each pattern
+component then lies in a component of its own), the substrate has at least as many components as the
+pattern — exactly as many under `strict_cc_count` — and no threshold fires. -/
+theorem C04.id_mem_search_comp (maxGroup : Nat) (strict : Bool) (thr : Nat) (G I T : LGraph) (h : OwnTemplate G I T)
+    (hd : SubgraphSearch.DistinctComponents G (left T) (idMap T))
+    (hle : (SubgraphSearch.comps (left T)).length ≤ (SubgraphSearch.comps G).length)
+    (hstrict : strict = true → (SubgraphSearch.comps G).length ≤ (SubgraphSearch.comps (left T)).length)
+    (hthr : ∀ maps ∈ SubgraphSearch.perCc monoSel G (left T), maps.length ≤ thr)
+    (hlen : (SubgraphSearch.compEnum monoSel G (left T)).length ≤ thr) :
+    idMap T ∈ (concrete maxGroup (compSearch strict thr)).search .comp G
+      ((concrete maxGroup (compSearch strict thr)).pattern false T) := by
+  rw [concrete_search_comp]
+  show idMap T ∈ compSearch strict thr G (left T)
+  unfold compSearch
+  rw [if_pos ⟨h.hG.1, left_wf T h.hT⟩]
+  exact mem_findComp_of_mono monoSel G (left T) h.hG.1 (left_wf T h.hT) _ h.hid hd strict thr hle hstrict hthr hlen
+
+/-- **The fallback strategy returns the identity match** as soon as the component-aware one does, or
+returns nothing at all (then the exhaustive enumeration is used). -/
+theorem C04.id_mem_search_bt (maxGroup : Nat) (comp : LGraph → LGraph → List Mapping) (G I T : LGraph)
+    (h : OwnTemplate G I T)
+    (hc : idMap T ∈ (concrete maxGroup comp).search .comp G ((concrete maxGroup comp).pattern false T) ∨
+      (concrete maxGroup comp).search .comp G ((concrete maxGroup comp).pattern false T) = []) :
+    idMap T ∈ (concrete maxGroup comp).search .bt G ((concrete maxGroup comp).pattern false T) := by
+  show idMap T ∈ searchBt ((concrete maxGroup comp).search .comp G ((concrete maxGroup comp).pattern false T))
+    ((concrete maxGroup comp).search .all G ((concrete maxGroup comp).pattern false T))
+  unfold searchBt
+  rcases hc with hc | hc
+  · have : ((concrete maxGroup comp).search .comp G ((concrete maxGroup comp).pattern false T)).isEmpty = false := by
+      cases hl : (concrete maxGroup comp).search .comp G ((concrete maxGroup comp).pattern false T) with
+      | nil => rw [hl] at hc; cases hc
+      | cons _ _ => rfl
+    rw [this]; exact hc
+  · rw [hc]; exact C04.id_mem_search_all maxGroup comp G I T h
+
+/-- **C04, component-aware and fallback strategies, any own template.** Under the conditions of
+`C04.id_mem_search_comp` the reaction is among the results of both strategies, on every renumbering of
+the substrate.  (By design the component-aware strategy with `strict_cc_count` fails when the substrate
+has more components than the pattern, and without it when two pattern components lie in one substrate
+component — e.g. an intramolecular reaction applied through its centre template; the fallback strategy
+then still succeeds when the component-aware search returns nothing.) -/
+theorem C04.own_template_regenerates_comp_bt (maxGroup : Nat) (strict : Bool) (thr : Nat) (G I T : LGraph)
+    (f : Nat → Nat) (hf : Function.Injective f) (h : OwnTemplate G I T) (hrc : RcComplete I T)
+    (hd : SubgraphSearch.DistinctComponents G (left T) (idMap T))
+    (hle : (SubgraphSearch.comps (left T)).length ≤ (SubgraphSearch.comps G).length)
+    (hstrict : strict = true → (SubgraphSearch.comps G).length ≤ (SubgraphSearch.comps (left T)).length)
+    (hthr : ∀ maps ∈ SubgraphSearch.perCc monoSel G (left T), maps.length ≤ thr)
+    (hlen : (SubgraphSearch.compEnum monoSel G (left T)).length ≤ thr) :
+    (∃ r ∈ (concrete maxGroup (compSearch strict thr)).results .comp false (G.relabel f) T, ItsEquiv r I) ∧
+    (∃ r ∈ (concrete maxGroup (compSearch strict thr)).results .bt false (G.relabel f) T, ItsEquiv r I) := by
+  have hc := C04.id_mem_search_comp maxGroup strict thr G I T h hd hle hstrict hthr hlen
+  exact ⟨C04.own_template_regenerates_concrete_strategy maxGroup _ (compSearch_sub strict thr)
+      (compSearch_equivariant strict thr) .comp G I T f hf h hrc hc,
+    C04.own_template_regenerates_concrete_strategy maxGroup _ (compSearch_sub strict thr)
+      (compSearch_equivariant strict thr) .bt G I T f hf h hrc
+      (C04.id_mem_search_bt maxGroup _ G I T h (Or.inl hc))⟩
+
+/-- **C04 for the full ITS template under the component-aware and fallback strategies — hypotheses on
+`(G, H)` only** (plus "no threshold fires"): the prepared pattern of the full ITS has literally the
+connected components of the reactant graph (`comps_left_construct`), so the component counts agree,
+`strict_cc_count` is immaterial and the identity match separates the components. -/
+theorem C04.own_template_regenerates_full_its_comp_bt (maxGroup : Nat) (strict : Bool) (thr : Nat)
+    (o : ITS.Opts) (hp : RxnPair G H) (f : Nat → Nat) (hf : Function.Injective f)
+    (hthr : ∀ maps ∈ SubgraphSearch.perCc monoSel G (left (ITS.construct o G H)), maps.length ≤ thr)
+    (hlen : (SubgraphSearch.compEnum monoSel G (left (ITS.construct o G H))).length ≤ thr) :
+    (∃ r ∈ (concrete maxGroup (compSearch strict thr)).results .comp false (G.relabel f) (ITS.construct o G H),
+        ItsEquiv r (ITS.construct o G H)) ∧
+    (∃ r ∈ (concrete maxGroup (compSearch strict thr)).results .bt false (G.relabel f) (ITS.construct o G H),
+        ItsEquiv r (ITS.construct o G H)) :=
+  C04.own_template_regenerates_comp_bt maxGroup strict thr G _ _ f hf (C04.ownTemplate_full_its o hp)
+    (rcComplete_self _) (distinctComponents_full_its o hp.toRxnPairW)
+    (by rw [comps_left_construct o hp.toRxnPairW]) (fun _ => by rw [comps_left_construct o hp.toRxnPairW])
+    hthr hlen
+
+/-! ### (i) without the hypothesis on aromatic flags and `neighbors` entries
+
+`_node_glue` copies the product side's aromatic flag and `neighbors` entry from the substrate, so a
+reaction that changes one of them is rebuilt with the substrate's values there.  Comparing reactions
+up to these two product-side entries (`ItsCoreEquiv`: `ItsEquiv` after `coreProj`; element, hydrogen
+count, charge of the product side and the whole reactant side are still compared, as are all order
+pairs) the statements hold for every balanced pair (`RxnPairW`). -/
+
+/-- **C04, concrete, exhaustive strategy, gap (i) closed.** For any reaction `I` of `G` and any template
+`T` cut out of it that covers the atoms whose hydrogen count or charge changes, the reaction is among
+the results up to `ItsCoreEquiv`. -/
+theorem C04.own_template_regenerates_core (maxGroup : Nat) (comp : LGraph → LGraph → List Mapping)
+    (G I T : LGraph) (f : Nat → Nat) (hf : Function.Injective f)
+    (hR : ReactionOf G I) (hS : SubITS T I) (hrc : RcComplete I T) :
+    ∃ r ∈ (concrete maxGroup comp).results .all false (G.relabel f) T, ItsCoreEquiv r I := by
+  obtain ⟨r, hr, he⟩ := C04.own_template_regenerates_concrete_partial maxGroup comp G (fixI G I) T f hf
+    (ownTemplate_fix G I T hR hS) (rcComplete_fix hrc)
+  exact ⟨r, hr, itsCoreEquiv_of_fix he⟩
+
+/-- **C04, graph level, gap (i) closed**: a match of the exhaustive enumeration glues to the reaction
+up to `ItsCoreEquiv`. -/
+theorem C04.exists_match_core (G I T : LGraph) (hR : ReactionOf G I) (hS : SubITS T I) (hrc : RcComplete I T) :
+    ∃ m ∈ allMonos monoSel G (left T), ItsCoreEquiv (glue G T m) I := by
+  obtain ⟨m, hm, he⟩ := C04.exists_match_of_ownTemplate G (fixI G I) T (ownTemplate_fix G I T hR hS) (rcComplete_fix hrc)
+  exact ⟨m, hm, itsCoreEquiv_of_fix he⟩
+
+/-- **C04, both directions, exhaustive strategy, gap (i) closed**, for a template cut out of the full ITS
+of any balanced pair. -/
+theorem C04.own_template_regenerates_both_directions_core (maxGroup : Nat) (comp : LGraph → LGraph → List Mapping)
+    (o : ITS.Opts) (hp : RxnPairW G H) (T : LGraph) (hS : SubITS T (ITS.construct o G H))
+    (hrc : RcComplete (ITS.construct o G H) T)
+    (f g : Nat → Nat) (hf : Function.Injective f) (hg : Function.Injective g) :
+    (∃ r ∈ (concrete maxGroup comp).results .all false (G.relabel f) T, ItsCoreEquiv r (ITS.construct o G H)) ∧
+    (∃ r ∈ (concrete maxGroup comp).results .all true (H.relabel g) T, ItsCoreEquiv r (ITS.construct o H G)) := by
+  constructor
+  · exact C04.own_template_regenerates_core maxGroup comp G _ T f hf (reactionOf_construct o hp) hS hrc
+  · rw [concrete_results_backward]
+    exact C04.own_template_regenerates_core maxGroup comp H _ (invert T) g hg (reactionOf_construct o hp.symm)
+      (subITS_invert o hp T hS) (rcComplete_invert o hp T hS.hT hrc)
+
+/-- **C04 for the full ITS template, graph level, hypotheses on `(G, H)` only, gap (i) closed.** -/
+theorem C04.own_template_regenerates_full_its_core (o : ITS.Opts) (hp : RxnPairW G H) :
+    ∃ m ∈ allMonos monoSel G (left (ITS.construct o G H)),
+      ItsCoreEquiv (glue G (ITS.construct o G H) m) (ITS.construct o G H) :=
+  C04.exists_match_core G _ _ (reactionOf_construct o hp) (subITS_self _ (wfTemplate_construct o hp)) (rcComplete_self _)
+
+/-- **C04 for the full ITS template, both directions, hypotheses on `(G, H)` only, gap (i) closed.** -/
+theorem C04.own_template_regenerates_full_its_results_core (maxGroup : Nat) (comp : LGraph → LGraph → List Mapping)
+    (o : ITS.Opts) (hp : RxnPairW G H) (f g : Nat → Nat) (hf : Function.Injective f) (hg : Function.Injective g) :
+    (∃ r ∈ (concrete maxGroup comp).results .all false (G.relabel f) (ITS.construct o G H),
+        ItsCoreEquiv r (ITS.construct o G H)) ∧
+    (∃ r ∈ (concrete maxGroup comp).results .all true (H.relabel g) (ITS.construct o G H),
+        ItsCoreEquiv r (ITS.construct o H G)) :=
+  C04.own_template_regenerates_both_directions_core maxGroup comp o hp _
+    (subITS_self _ (wfTemplate_construct o hp)) (rcComplete_self _) f g hf hg
+
+/-- **C04 for the centre template, both directions, hypotheses on `(G, H)` only, gap (i) closed.** -/
+theorem C04.own_template_regenerates_centre_results_core (maxGroup : Nat) (comp : LGraph → LGraph → List Mapping)
+    (o : ITS.Opts) (ho : o.ignoreArom = false) (hp : RxnPairW G H) (hc : CentreCovers G H)
+    (f g : Nat → Nat) (hf : Function.Injective f) (hg : Function.Injective g) :
+    (∃ r ∈ (concrete maxGroup comp).results .all false (G.relabel f) (ITS.getRc {} (ITS.construct o G H)),
+        ItsCoreEquiv r (ITS.construct o G H)) ∧
+    (∃ r ∈ (concrete maxGroup comp).results .all true (H.relabel g) (ITS.getRc {} (ITS.construct o G H)),
+        ItsCoreEquiv r (ITS.construct o H G)) :=
+  C04.own_template_regenerates_both_directions_core maxGroup comp o hp _
+    (subITS_getRc _ (wfits_construct o ho hp) (wfTemplate_construct o hp))
+    (rcComplete_getRc o ho hp hc) f g hf hg
+
+/-! ### Non-vacuity: `CH3–Br + NH3 (+ H2O) → CH3–NH2 + HBr (+ H2O)` as a pair of molecule graphs -/
+
+private def mAtom (el : String) (n : Nat) (h : Int) : Nat × Attrs :=
+  (n, [("element", .str el), ("aromatic", .bool false), ("hcount", .num h), ("charge", .num 0),
+       ("atom_map", .num (2 * (n : Int))), ("neighbors", .tup [])])
+
+/-- Reactants `[CH3:1][Br:2].[NH3:3].[OH2:4]` … -/
+private def pG : LGraph :=
+  { nodes := [mAtom "C" 1 6, mAtom "Br" 2 0, mAtom "N" 3 6, mAtom "O" 4 4], edges := [(1, 2, [("order", .num 2)])] }
+/-- … and products `[CH3:1][NH2:3].[BrH:2].[OH2:4]` on the same atoms. -/
+private def pH : LGraph :=
+  { nodes := [mAtom "C" 1 6, mAtom "Br" 2 2, mAtom "N" 3 4, mAtom "O" 4 4], edges := [(3, 1, [("order", .num 2)])] }
+
+private theorem pPair : RxnPair pG pH where
+  molG := ⟨by decide, by decide, fun e he => by
+    simp only [pG, List.mem_singleton] at he; subst he; exact ⟨2, by decide, rfl⟩⟩
+  molH := ⟨by decide, by decide, fun e he => by
+    simp only [pH, List.mem_singleton] at he; subst he; exact ⟨2, by decide, rfl⟩⟩
+  same := fun _ => Iff.rfl
+  noTgG := by decide
+  noTgH := by decide
+  elem := by
+    have : pG.ids = [1, 2, 3, 4] := by decide
+    rw [this]; intro v hv
+    simp only [List.mem_cons, List.mem_nil_iff, or_false] at hv
+    rcases hv with rfl | rfl | rfl | rfl
+    · exact ⟨"C", by decide, by decide, by decide⟩
+    · exact ⟨"Br", by decide, by decide, by decide⟩
+    · exact ⟨"N", by decide, by decide, by decide⟩
+    · exact ⟨"O", by decide, by decide, by decide⟩
+  hcnt := by
+    have : pG.ids = [1, 2, 3, 4] := by decide
+    rw [this]; intro v hv
+    simp only [List.mem_cons, List.mem_nil_iff, or_false] at hv
+    rcases hv with rfl | rfl | rfl | rfl
+    · exact ⟨⟨6, by decide⟩, ⟨6, by decide⟩⟩
+    · exact ⟨⟨0, by decide⟩, ⟨2, by decide⟩⟩
+    · exact ⟨⟨6, by decide⟩, ⟨4, by decide⟩⟩
+    · exact ⟨⟨4, by decide⟩, ⟨4, by decide⟩⟩
+  nbKey := by
+    have : pG.ids = [1, 2, 3, 4] := by decide
+    rw [this]; intro v hv
+    simp only [List.mem_cons, List.mem_nil_iff, or_false] at hv
+    rcases hv with rfl | rfl | rfl | rfl <;> exact ⟨⟨.tup [], by decide⟩, ⟨.tup [], by decide⟩⟩
+  arom := by decide
+  nbrs := by decide
+
+private theorem pCovers : CentreCovers pG pH := by
+  have : pG.ids = [1, 2, 3, 4] := by decide
+  unfold CentreCovers
+  rw [this]; intro v hv hu
+  simp only [List.mem_cons, List.mem_nil_iff, or_false] at hv
+  rcases hv with rfl | rfl | rfl | rfl
+  · exact ⟨by decide, by decide⟩
+  · exact absurd (hu 1) (by decide)
+  · exact absurd (hu 1) (by decide)
+  · exact ⟨by decide, by decide⟩
+
+/-- The hypotheses of the `(G, H)`-level theorems are satisfiable on a non-trivial reaction (two changed
+bonds, a hydrogen migration, a spectator molecule): -/
+example : RxnPair pG pH ∧ CentreCovers pG pH := ⟨pPair, pCovers⟩
+
+/-- the centre template has three atoms and two bonds, the spectator water is outside it; -/
+example : (ITS.getRc {} (ITS.construct {} pG pH)).ids = [1, 2, 3] ∧
+    (ITS.getRc {} (ITS.construct {} pG pH)).edges.map (fun e => (e.1, e.2.1, Attrs.get e.2.2 "order")) =
+      [(1, 2, .tup [.num 2, .num 0]), (3, 1, .tup [.num 0, .num 2])] := by decide
+
+/-- forwards, on renumbered reactants (+7), full ITS and centre template give the renumbered reaction,
+label for label and bond for bond, under every strategy; -/
+example :
+    let I := ITS.construct {} pG pH
+    let view := fun (r : LGraph) => (r.nodes.map fun p => (p.1, Attrs.get p.2 "typesGH"),
+      r.edges.map fun e => (e.1, e.2.1, Attrs.get e.2.2 "order"))
+    ∀ T ∈ [I, ITS.getRc {} I], ∀ s ∈ [Strategy.all, Strategy.comp, Strategy.bt],
+      ((concrete 5040 (compSearch false 5000)).results s false (pG.relabel (· + 7)) T).map view =
+        [view (I.relabel (· + 7))] := by decide
+
+/-- backwards, on renumbered products (+7), they give the renumbered reversed reaction (same label
+pairs; the bonds 10–8 formed→broken and 8–9 broken→formed). -/
+example :
+    let I := ITS.construct {} pG pH
+    ∀ T ∈ [I, ITS.getRc {} I],
+      ((concrete 5040 (compSearch false 5000)).results .all true (pH.relabel (· + 7)) T).map
+          (fun r => (r.nodes.map fun p => (p.1, Attrs.get p.2 "typesGH"),
+            r.edges.map fun e => (e.1, e.2.1, Attrs.get e.2.2 "order"))) =
+        [(((ITS.construct {} pH pG).relabel (· + 7)).nodes.map fun p => (p.1, Attrs.get p.2 "typesGH"),
+          [(10, 8, .tup [.num 2, .num 0]), (8, 9, .tup [.num 0, .num 2])])] := by decide
+
+/-! ### Non-vacuity of the gap-(i)-free statements: the same reaction with real `neighbors` lists -/
+
+private def nAtom (el : String) (n : Nat) (h : Int) (nb : List String) : Nat × Attrs :=
+  (n, [("element", .str el), ("aromatic", .bool false), ("hcount", .num h), ("charge", .num 0),
+       ("atom_map", .num (2 * (n : Int))), ("neighbors", .tup (nb.map Val.str))])
+
+private def qG : LGraph :=
+  { nodes := [nAtom "C" 1 6 ["Br"], nAtom "Br" 2 0 ["C"], nAtom "N" 3 6 [], nAtom "O" 4 4 []],
+    edges := [(1, 2, [("order", .num 2)])] }
+private def qH : LGraph :=
+  { nodes := [nAtom "C" 1 6 ["N"], nAtom "Br" 2 2 [], nAtom "N" 3 4 ["C"], nAtom "O" 4 4 []],
+    edges := [(3, 1, [("order", .num 2)])] }
+
+private theorem qPair : RxnPairW qG qH where
+  molG := ⟨by decide, by decide, fun e he => by
+    simp only [qG, List.mem_singleton] at he; subst he; exact ⟨2, by decide, rfl⟩⟩
+  molH := ⟨by decide, by decide, fun e he => by
+    simp only [qH, List.mem_singleton] at he; subst he; exact ⟨2, by decide, rfl⟩⟩
+  same := fun _ => Iff.rfl
+  noTgG := by decide
+  noTgH := by decide
+  elem := by
+    have : qG.ids = [1, 2, 3, 4] := by decide
+    rw [this]; intro v hv
+    simp only [List.mem_cons, List.mem_nil_iff, or_false] at hv
+    rcases hv with rfl | rfl | rfl | rfl
+    · exact ⟨"C", by decide, by decide, by decide⟩
+    · exact ⟨"Br", by decide, by decide, by decide⟩
+    · exact ⟨"N", by decide, by decide, by decide⟩
+    · exact ⟨"O", by decide, by decide, by decide⟩
+  hcnt := by
+    have : qG.ids = [1, 2, 3, 4] := by decide
+    rw [this]; intro v hv
+    simp only [List.mem_cons, List.mem_nil_iff, or_false] at hv
+    rcases hv with rfl | rfl | rfl | rfl
+    · exact ⟨⟨6, by decide⟩, ⟨6, by decide⟩⟩
+    · exact ⟨⟨0, by decide⟩, ⟨2, by decide⟩⟩
+    · exact ⟨⟨6, by decide⟩, ⟨4, by decide⟩⟩
+    · exact ⟨⟨4, by decide⟩, ⟨4, by decide⟩⟩
+  nbKey := by
+    have : qG.ids = [1, 2, 3, 4] := by decide
+    rw [this]; intro v hv
+    simp only [List.mem_cons, List.mem_nil_iff, or_false] at hv
+    rcases hv with rfl | rfl | rfl | rfl <;>
+      exact ⟨Option.isSome_iff_exists.1 (by decide), Option.isSome_iff_exists.1 (by decide)⟩
+
+/-- The pair is balanced, but the carbon's `neighbors` entry changes (Br → N): `RxnPair.nbrs` fails, and
+indeed the glued graph differs from the reaction in that entry of the product-side label … -/
+example : RxnPairW qG qH ∧ Dict.get? (qH.attrs 1) "neighbors" ≠ Dict.get? (qG.attrs 1) "neighbors" ∧
+    Attrs.get ((glue qG (ITS.construct {} qG qH) (idMap (ITS.construct {} qG qH))).attrs 1) "typesGH" ≠
+      Attrs.get ((ITS.construct {} qG qH).attrs 1) "typesGH" := ⟨qPair, by decide, by decide⟩
+
+/-- … and in nothing else: after `coreProj` the results, forwards on renumbered reactants and backwards on
+renumbered products, are the renumbered reaction and the renumbered reversed reaction. -/
+example :
+    let I := ITS.construct {} qG qH
+    let view := fun (r : LGraph) => ((coreProj r).nodes.map fun p => (p.1, Attrs.get p.2 "typesGH"),
+      r.edges.map fun e => (e.1, e.2.1, Attrs.get e.2.2 "order"))
+    ∀ T ∈ [I, ITS.getRc {} I],
+      ((concrete 5040 (compSearch false 5000)).results .all false (qG.relabel (· + 7)) T).map view =
+        [view (I.relabel (· + 7))] ∧
+      ((concrete 5040 (compSearch false 5000)).results .all true (qH.relabel (· + 7)) T).map (fun r => (view r).1) =
+        [(view ((ITS.construct {} qH qG).relabel (· + 7))).1] := by decide
+
+end ITSLink
 
 end SynKit.ReactorInv
